@@ -532,4 +532,4 @@ PROP = Prop(
                  "lacking a class turns int labels into floats and widens string dtypes"],
 )
 
-RULE_EXTRA = ('uint8 scores; explicit, non-alphabetical group_names incl. a name without members; a second object over the same caller arrays; sources of 90-130 scores per class.')
+RULE_EXTRA = ('uint8 scores; explicit, non-alphabetical group_names incl. a name without members; a second object over the same caller arrays; sources of 90-130 scores per class. A groupwise metric that is an int for some groups and x.5 for others; the run-time switch re-assigned around the sampling clause.')
